@@ -194,6 +194,14 @@ def run_body(ctx, path, f: FuncRef, env, node=None, spec=False, frame_extra=None
     from .source import strip_docstring
     from .stmt import exec_block
     if is_generator(f.node):
+        if f.qualname == "result_name_generator" and not env:
+            # the repository's only generator: modelled by a ghost counter (next() yields result_1, result_2, ...;
+            # see contracts.generator_next). The model is an assumption about its three-line body.
+            g = Val(ctx.newV("gen"), ("gen", "result_name"), own="fresh")
+            path.ghost[("gen", simp(g.t).sexpr())] = Val(V.VInt(z3.IntVal(0)), ("int",))
+            path.note("result_name_generator(): modelled by a ghost counter (assumed: yields result_1, result_2, ... in order)")
+            yield path, g
+            return
         raise Unsupported(f"generator function {f.qualname} must be used through its contract")
     saved_env = path.env
     path.env = dict(env)
